@@ -160,7 +160,7 @@ func (e *Engine) registerEnvIntrinsics(pkgPath string) {
 		return TrueT
 	})
 	reg("vrtUnB64", func(x *Exec, fr *frame, a []Value) Value {
-		t := x.term(a[0])
+		t := x.shape(x.term(a[0]))
 		if t.Op == "uf" && t.S == "b64" {
 			return TupleV{t.Args[0], TrueT}
 		}
@@ -193,6 +193,28 @@ func (e *Engine) registerEnvIntrinsics(pkgPath string) {
 		c := PrefixOf(p, s)
 		if c.IsTrue() {
 			return TupleV{TrimPrefix(s, p), TrueT}
+		}
+		if c.IsFalse() {
+			return TupleV{s, FalseT}
+		}
+		// piecewise alignment: p = u1 .. uk-1 "lit", s = v1 .. vk-1 "lit..." rest
+		ps, pp := flatten(s), flatten(p)
+		if n := len(pp); n >= 1 && n <= len(ps) {
+			eq := TrueT
+			for k := 0; k < n-1; k++ {
+				eq = And(eq, Eq(pp[k], ps[k]))
+			}
+			last, sl := pp[n-1], ps[n-1]
+			var rest []*Term
+			if last.IsConst() && sl.IsConst() && strings.HasPrefix(sl.S, last.S) {
+				rest = append([]*Term{StrC(sl.S[len(last.S):])}, ps[n:]...)
+			} else {
+				eq = And(eq, Eq(last, sl))
+				rest = ps[n:]
+			}
+			if !eq.IsFalse() && x.Branch(eq) {
+				return TupleV{Concat(rest...), TrueT}
+			}
 		}
 		if x.Branch(c) {
 			return TupleV{TrimPrefix(s, p), TrueT}
